@@ -13,7 +13,7 @@
 (*   {ev:"relax", state}            after do_relaxations                      *)
 (*   {ev:"reloc", r, sec, before, after}   section bytes around _do_relocation*)
 (*   {ev:"fail", phase, exc, state} first exception                           *)
-(*   {ev:"end", state}              the object returned by link()             *)
+(*   {ev:"end", state, imgdata}     the object returned by link(), Image.data *)
 (* The specification takes its internal steps (one symbol, one memory input)  *)
 (* silently and must be able to take every event in order; the state it       *)
 (* reaches must match the observed one (Matches: addresses, alignments,       *)
@@ -154,9 +154,23 @@ T_RelocateFails ==
     /\ spur' = Fits(nxt)
     /\ Consume /\ UNCHANGED <<chunk, bad, why, obs>>
 
+\* objectfile.Image.data of every image of the returned object: as long as Image.size says, with every
+\* section of the image at its address (the bytes in the gaps are not constrained)
+ImagesAssemble ==
+    /\ Len(Ev.imgdata) = Len(dst.images)
+    /\ \A g \in 1..Len(dst.images) :
+         LET im == dst.images[g]
+             d  == Ev.imgdata[g] IN
+         /\ d.ok /\ d.name = im.name
+         /\ Len(d.data) = ImageSize(dst.secs, im)
+         /\ \A k \in 1..Len(im.secs) :
+              LET s == SecOf(dst.secs, im.secs[k])
+                  j == ObsSecIdx(Ev.state, s.name) IN
+              j > 0 /\ \A b \in 1..Len(s.data) : d.data[s.addr - im.addr + b] = Ev.state.sections[j].data[b]
 \* the returned object is the state reached, with exactly the bytes observed after the last relocation
 T_End == /\ IsEv("end") /\ ph = "done"
          /\ Matches(dst, Ev.state)
+         /\ ImagesAssemble
          /\ (~opt.partial => \A j \in 1..Len(obs) :
                 LET k == ObsSecIdx(Ev.state, obs[j].name) IN k > 0 /\ Ev.state.sections[k].data = obs[j].data)
          /\ Consume /\ KeepT /\ UNCHANGED vars
@@ -205,7 +219,10 @@ Diag ==
          ELSE IF CheckValues /\ ~Fits(nxt) THEN "value not representable in the field, but output was produced"
          ELSE IF ~ValueOK(nxt, Ev.before, Ev.after) THEN "patched field does not designate S + A"
          ELSE "relocation refused")
-    ELSE IF ph = "done" THEN Expect(dst, "returned object")
+    ELSE IF ph = "done" THEN
+        (IF IsEv("end") /\ Matches(dst, Ev.state) /\ ~ImagesAssemble
+         THEN "Image.data does not hold the sections of the image at their addresses"
+         ELSE Expect(dst, "returned object"))
     ELSE "no event expected after the failure"
 
 -----------------------------------------------------------------------------
